@@ -1,4 +1,4 @@
 #!/bin/sh
 # usage: tools/bn.sh C01/b1 C01 [more check ids]  -- run checks verbosely against a benign scratch copy under /var/tmp/bn
-d=/var/tmp/bn/$1; shift
+d=/var/tmp/${BN:-bn}/$1; shift
 for id in "$@"; do SA_NO_EVIDENCE=1 SA_NO_BATTERY=1 /venv/bin/python -B -m sa.run $id --root $d 2>&1 | grep -v "^WARNING conda"; done
